@@ -136,13 +136,17 @@ def cases(draw):
         spec["name"] = draw(st.sampled_from(PRESETS))
         spec["entry"] = draw(st.sampled_from(["path", "tree", "find_path", "find_tree"]))
     elif fam == "class":
-        spec["name"] = draw(st.sampled_from(["Greedy", "Optimal", "RandomGreedy", "Random"]))
-        spec["entry"] = draw(st.sampled_from(["call", "search"]))
+        spec["name"] = draw(st.sampled_from(["Greedy", "Optimal", "RandomGreedy", "Random", "ReusableRandomGreedy", "ReusableHyper"]))
+        # (the optimizer object used directly, or handed to the interface; a
+        # reusable one is asked twice: the second answer comes from its cache)
+        spec["entry"] = draw(st.sampled_from(["call", "search", "interface_path", "interface_tree"]))
         spec["kw"] = {
             "Greedy": {"costmod": draw(st.sampled_from([1.0, 0.3, 3.0])), "temperature": draw(st.sampled_from([0.0, 0.5])), "simplify": draw(st.booleans())},
             "Optimal": {"minimize": draw(st.sampled_from(["flops", "size", "write", "max", "combo", "limit-16"])), "search_outer": draw(st.booleans()), "simplify": draw(st.booleans())},
             "RandomGreedy": {"max_repeats": draw(st.integers(1, 4)), "simplify": draw(st.booleans())},
             "Random": {},
+            "ReusableRandomGreedy": {"max_repeats": draw(st.integers(1, 3))},
+            "ReusableHyper": {"max_repeats": draw(st.integers(1, 2)), "methods": [draw(st.sampled_from(["greedy", "random-greedy", "labels", "random"]))]},
         }[spec["name"]]
     elif fam == "hyper":
         m = draw(st.sampled_from(HYPER))
@@ -295,11 +299,33 @@ def run_case(spec, sub=None):
                 opt = ctg.pathfinders.path_basic.OptimalOptimizer(**kw)
             elif name == "RandomGreedy":
                 opt = ctg.pathfinders.path_basic.RandomGreedyOptimizer(seed=spec["seed"], parallel=False, **kw)
+            elif name == "ReusableRandomGreedy":
+                if n == 1:
+                    skipped = True  # (open finding D17: log of zero flops)
+                    return None
+                opt = ctg.pathfinders.path_basic.ReusableRandomGreedyOptimizer(seed=spec["seed"], parallel=False, **kw)
+            elif name == "ReusableHyper":
+                if n == 1:
+                    skipped = True
+                    return None
+                opt = ctg.ReusableHyperOptimizer(optlib="random", parallel=False, on_trial_error="raise", seed=spec["seed"], **kw)
             else:
                 opt = ctg.pathfinders.path_random.RandomOptimizer(seed=spec["seed"])
-            if spec["entry"] == "call":
-                return "path", opt(inputs, output, sizes)
-            return "tree", opt.search(inputs, output, sizes)
+
+            def ask():
+                if spec["entry"] == "call":
+                    return "path", opt(inputs, output, sizes)
+                if spec["entry"] == "interface_path":
+                    return "path", ctg.array_contract_path(inputs, output, sizes, optimize=opt, cache=False)
+                if spec["entry"] == "interface_tree":
+                    return "tree", ctg.array_contract_tree(inputs, output, sizes, optimize=opt)
+                return "tree", opt.search(inputs, output, sizes)
+
+            if name.startswith("Reusable"):
+                first = ask()
+                second = ask()  # served from the optimizer's cache
+                return "two", (first, second)
+            return ask()
         if fam == "hyper":
             m = spec["name"]
             params = dict(spec["params"])
@@ -388,7 +414,7 @@ def run_case(spec, sub=None):
             kind, val = res
             if kind == "both":
                 items = [("path", val[0]), ("tree", val[1])]
-            elif kind == "many":
+            elif kind in ("many", "two"):
                 items = list(val)
             else:
                 items = [(kind, val)]
